@@ -172,21 +172,7 @@ func runC02(c *eng.Ctx, tier string) {
 			c.Check(okk, "R-C02-6", w.Fn, w.In.Pos(), "stored value "+eng.ValStr(w.Val), "the stored value is a copy made by []byte->string conversion of the caller's bytes", "")
 		}
 	}
-	// R-C02-7 every secrets-map access uses the function's name parameter
-	for _, f := range p.PkgFuncs("db") {
-		var nameP *ssa.Parameter
-		for _, prm := range eng.Outer(f).Params {
-			if nameP == nil && types.Identical(prm.Type(), types.Typ[types.String]) {
-				nameP = prm
-			}
-		}
-		for _, m := range eng.MapOps(f) {
-			if !m.SrcOK || !m.Src.Is("db", "kv", "secrets") || m.Key == nil {
-				continue
-			}
-			c.Check(nameP != nil && eng.Origin(m.Key) == ssa.Value(nameP), "R-C02-7", f, m.In.Pos(), "secrets map "+m.Kind+" with key "+eng.ValStr(m.Key), "the key is the operation's own name parameter (operations on one name never touch another)", "key is "+eng.ValStr(m.Key))
-		}
-	}
+	secretsKeyIsOwnName(c, "R-C02-7")
 	c.Floor("R-C02-7", 8)
 }
 
@@ -472,5 +458,25 @@ func c02Guards(c *eng.Ctx, d *dbInfo, k *kvAnalysis) {
 			}
 		}
 		c.Check(ok, "R-C02-5", w.Fn, w.In.Pos(), eng.InstrStr(w.In)+" [version 0]", "edge-dominated by version != 0 (version 0 means 'default' and is never a stored version)", "holding here: "+eng.FactsString(w.In))
+	}
+}
+
+// secretsKeyIsOwnName: every keyed access to kv.secrets uses the enclosing
+// operation's own name parameter as key (shared by C02 and C01).
+func secretsKeyIsOwnName(c *eng.Ctx, rule string) {
+	p := c.P
+	for _, f := range p.PkgFuncs("db") {
+		var nameP *ssa.Parameter
+		for _, prm := range eng.Outer(f).Params {
+			if nameP == nil && types.Identical(prm.Type(), types.Typ[types.String]) {
+				nameP = prm
+			}
+		}
+		for _, m := range eng.MapOps(f) {
+			if !m.SrcOK || !m.Src.Is("db", "kv", "secrets") || m.Key == nil {
+				continue
+			}
+			c.Check(nameP != nil && eng.Origin(m.Key) == ssa.Value(nameP), rule, f, m.In.Pos(), "secrets map "+m.Kind+" with key "+eng.ValStr(m.Key), "the key is the operation's own name parameter (operations on one name never touch another)", "key is "+eng.ValStr(m.Key))
+		}
 	}
 }
